@@ -87,7 +87,6 @@ class Rec:
         self.nested = []         # (t, m, fname) reads made from inside doPoll / initialReads
         self.stamps = {}         # (m, p) -> last seen timestamp
         self.track = []          # (m, p, pobj)
-        self.intervals = {}      # m -> [(t, interval)]
         self.in_wait = False
         self.wait_t0 = 0
         self.batches = []
@@ -99,6 +98,12 @@ class Rec:
         self.incomplete = None
         self.t_end = None
         self.wait_log = []       # (start, timeout, elapsed, event was already set) per wait, for diagnostics
+        self.gaps = []           # per wait: what other threads did between its return and the `clear` that follows
+        self.in_gap = False
+        self.sync_n = 0          # number of event operations (wait / clear) the poll thread has begun
+        self.at_sync = False     # the poll thread is at the entry of such an operation right now
+        self.cmds = {}           # m -> [['pi', t, v] | ['fp', t, flag, v]]: what the module was told
+        self.drift = None        # the implementation did something the model has no slot for (a correspondence disagreement)
 
     def now(self):
         return _tick(self.s.now)
@@ -130,7 +135,8 @@ class Rec:
         if self.cur is not None:
             raise HarnessProblem('nested direct call')
         if self.mclock is not None and self.now() != self.mclock:
-            raise HarnessProblem(f'clock moved outside the model: {self.now()} != {self.mclock} before {m} {f}')
+            self.drift = self.drift or f'clock moved outside the model: {self.now()} != {self.mclock} before {m} {f}'
+            self.mclock = self.now()
         self.cur = {'t': self.now(), 'm': m, 'f': f}
         self.outcome = 'ok'
         self.flag0 = self.event.is_set() if self.event is not None else False
@@ -157,6 +163,7 @@ class Rec:
         self.calls.append(c)
         self.mclock = self.now()
         del self.s.trace[:]          # the scheduler's label trace is not used here; keep memory flat
+        del self.s.choices[:]
         if len(self.calls) >= MAX_CALLS and not self.s.aborting:
             self.t_end = self.now()
             self.s._abort('done')
@@ -360,6 +367,28 @@ def expected_polled(spec, mobj):
     return res
 
 
+WINDOW = ('c13.window',)
+
+
+def _window_policy():
+    from vlib.sched import Policy
+
+    class WindowPolicy(Policy):
+        """never preempt, except: a thread waiting for the poll thread to reach one of its event operations
+        (label WINDOW, condition true) runs at exactly that yield point — before the operation takes effect"""
+
+        def choose(self, enabled, default, step, labels):
+            for k, t in enumerate(enabled):
+                if t.status == 'blocked' and t.label == WINDOW:
+                    return k
+            return default
+    return WindowPolicy
+
+
+def WindowPolicy():
+    return _window_policy()()
+
+
 def impl_run(case):
     """run one scenario on the real code; returns the observation dict"""
     import frappy.modulebase as mb
@@ -367,7 +396,7 @@ def impl_run(case):
     from vlib.sched import Scheduler
     from vlib.node import Node
 
-    s = Scheduler(max_steps=case.get('max_steps', 3000000), start_time=float(case.get('start', 1000)))
+    s = Scheduler(policy=WindowPolicy(), max_steps=case.get('max_steps', 3000000), start_time=float(case.get('start', 1000)))
     s.TICK = 1.0 / TICKS
     rec = Rec(s)
     T_end = case['T']
@@ -451,8 +480,8 @@ def impl_run(case):
             model_mods.append({'enabled': enabled, 'slow': _tick(mobj.slowinterval), 'polled': polled if enabled else [],
                                'pollinterval': iv, 'interval': iv, 'stamps': stamps})
             judge_mods.append({'enabled': enabled, 'slow': _tick(mobj.slowinterval), 'polled': polled if enabled else [],
-                               'intervals': [[0, iv]], 'names': names})
-            rec.intervals[i] = judge_mods[-1]['intervals']
+                               'pollinterval': iv, 'cmds': [], 'names': names})
+            rec.cmds[i] = judge_mods[-1]['cmds']
 
         # ---- instrumentation on the instances
         def fn_code(mobj, name):
@@ -487,19 +516,26 @@ def impl_run(case):
             tq = math.ceil(timeout * TICKS - 1e-9) / TICKS
             w0 = rec.now()
             if rec.mclock is not None and w0 != rec.mclock:
-                raise HarnessProblem(f'clock moved outside the model before wait: {w0} != {rec.mclock}')
+                rec.drift = rec.drift or f'clock moved outside the model before wait: {w0} != {rec.mclock}'
             was_set = ev.is_set()
             rec.in_wait = True
             rec.wait_t0 = w0
             rec.batches = []
+            rec.sync_n += 1
+            rec.at_sync = True
             try:
                 r = orig_wait(tq)
             finally:
                 rec.in_wait = False
+                rec.at_sync = False
             batches = rec.batches
             rec.batches = []
+            gap = []
             if was_set:
+                # the wait returned at once; whatever another thread did at its entry comes, for the loop, between
+                # this wait and the `clear`
                 d = 0
+                gap = [x for b in batches for x in b['x']]
                 batches = []
             else:
                 trig = [b for b in batches if b['set']]
@@ -510,10 +546,25 @@ def impl_run(case):
                     if rec.now() - w0 < d:
                         raise HarnessProblem(f'wait({tq}) returned after {rec.now() - w0} ticks without a trigger')
             rec.waits.append([{'d': b['d'], 'x': b['x']} for b in batches])
+            rec.gaps.append(gap)
             rec.wait_log.append((w0, _tick(tq), d, was_set))
             rec.mclock = w0 + d
             return r
         ev.wait = wait
+        orig_clear = ev.clear
+
+        def clear():
+            if not rec.is_poller():
+                return orig_clear()
+            rec.in_gap = True
+            rec.sync_n += 1
+            rec.at_sync = True
+            try:
+                return orig_clear()        # yields before it takes effect: another thread may act here
+            finally:
+                rec.in_gap = False
+                rec.at_sync = False
+        ev.clear = clear
 
         # ---- threads
         state = {'exited': False, 'started': None}
@@ -534,6 +585,12 @@ def impl_run(case):
                 b = {'d': rec.now() - rec.wait_t0, 'x': [x], 'set': False}
                 rec.batches.append(b)
                 return b
+            if rec.in_gap:
+                if rec.gaps:
+                    rec.gaps[-1].append(x)
+                else:
+                    rec.drift = rec.drift or 'the poll thread clears its event without having waited'
+                return None
             if rec.cur is None:
                 raise HarnessProblem(f'actor acted while the poll thread was between blocking points ({rec.poller.label})')
             rec.pending_ext.append(x)
@@ -549,37 +606,53 @@ def impl_run(case):
                 if a['at'] > t:
                     s.time.sleep((a['at'] - t) / TICKS)
                     t = a['at']
-                mname = 'm%d' % a['m']
-                mobj = node.modules[mname]
-                i = index.get(mname)
-                if i is None or mobj.pollInfo is None:
+                do_action(a)
+
+        def do_action(a):
+            """what another thread does to the module: the command it gives is recorded for the judge (what the module
+            was TOLD — never what the poller's bookkeeping made of it), its effect on the loop for the model"""
+            mname = 'm%d' % a['m']
+            mobj = node.modules[mname]
+            i = index.get(mname)
+            if i is None or mobj.pollInfo is None or rec.poller.status == 'done':
+                return
+            op = a['op']
+            begin = rec.now()
+            batch = None
+            if op == 'pi':
+                # for the model: recorded by the wrapper of PollInfo.update_interval, and only if the callback really runs
+                # (announceUpdate omits callbacks for an unchanged value within `omit_unchanged_within`)
+                mobj.pollinterval = a['v'] / TICKS
+                rec.cmds[i].append(['pi', begin, _tick(mobj.pollinterval)])
+            elif op == 'fast':
+                batch = note_ext(['fp', i, bool(a['flag']), a['v']])
+                rec.cmds[i].append(['fp', begin, bool(a['flag']), a['v']])
+                mobj.setFastPoll(bool(a['flag']), a['v'] / TICKS)
+            elif op == 'trig':
+                batch = note_ext(['tr', i, bool(a['imm'])])
+                mobj.pollInfo.trigger(bool(a['imm']))
+            elif op == 'reconnect':
+                cbs = getattr(owner, '_reconnectCallbacks', None)
+                if not cbs or 'trigger_polls' not in cbs:
+                    return
+                batch = note_ext(['ta'])
+                owner.callCallbacks()
+            if batch is not None:
+                batch['set'] = ev.is_set()
+
+        def intruder():
+            # acts at chosen event operations (wait / clear) of the poll thread, at their entry: between the computation
+            # of the wait time and the wait, and between the return of the wait and the clear
+            while state['started'] is None and rec.poller.status != 'done':
+                s.time.sleep(16 / TICKS)
+            base = rec.sync_n
+            for a in sorted(case.get('wactions', []), key=lambda a: a['sync']):
+                target = base + a['sync']
+                if rec.sync_n >= target:
                     continue
-                op = a['op']
-                begin = rec.now()
-                batch = None
-                if op == 'pi':
-                    # recorded by the wrapper of PollInfo.update_interval, and only if the callback really runs
-                    # (announceUpdate omits callbacks for an unchanged value within `omit_unchanged_within`)
-                    mobj.pollinterval = a['v'] / TICKS
-                elif op == 'fast':
-                    batch = note_ext(['fp', i, bool(a['flag']), a['v']])
-                    mobj.setFastPoll(bool(a['flag']), a['v'] / TICKS)
-                elif op == 'trig':
-                    batch = note_ext(['tr', i, bool(a['imm'])])
-                    mobj.pollInfo.trigger(bool(a['imm']))
-                elif op == 'reconnect':
-                    cbs = getattr(owner, '_reconnectCallbacks', None)
-                    if not cbs or 'trigger_polls' not in cbs:
-                        continue
-                    batch = note_ext(['ta'])
-                    owner.callCallbacks()
-                if batch is not None:
-                    batch['set'] = ev.is_set()
-                for j, mo in enumerate(thread_mods):
-                    if mo.pollInfo is not None:
-                        cur = _tick(mo.pollInfo.interval)
-                        if rec.intervals[j][-1][1] != cur:
-                            rec.intervals[j].append([begin, cur])
+                s.block(WINDOW, lambda: rec.at_sync and rec.sync_n == target)
+                if rec.at_sync and rec.sync_n == target:
+                    do_action(a)
 
         def stopper():
             state['tEnd'] = rec.now() + T_end
@@ -600,6 +673,8 @@ def impl_run(case):
 
         rec.poller = s.spawn('poller', body)
         s.spawn('actor', actor)
+        if case.get('wactions'):
+            s.spawn('intruder', intruder)
         s.spawn('stopper', stopper)
         mb.PollInfo.update_interval = update_interval
         try:
@@ -627,6 +702,9 @@ def impl_run(case):
         'incomplete': rec.incomplete,
         'advs': rec.advs,
         'waits': rec.waits,
+        'gaps': rec.gaps,
+        'drift': rec.drift,
+        'syncs': rec.sync_n,
         'wait_log': rec.wait_log,
         'clock0': start,
         'loopStart': rec.loop_start if rec.loop_start is not None else (rec.mclock or start),
@@ -651,7 +729,7 @@ def model_request(obs):
             'mods': obs['model_mods'], 'adv': obs['advs'],
             'calls': [{'d': c['d'], 'o': MODEL_OUTCOME[c['o']] if c['o'] in MODEL_OUTCOME else c['o'],
                        't': c['touch'], 'x': c['x']} for c in obs['calls']],
-            'waits': obs['waits']}
+            'waits': obs['waits'], 'gaps': obs['gaps']}
 
 
 def judge_request(obs):
@@ -764,14 +842,100 @@ def gen_case(rng, big, T):
                 actions.append({'at': t, 'op': 'trig', 'm': m, 'imm': rng.random() < 0.6})
             elif with_io:
                 actions.append({'at': t, 'op': 'reconnect', 'm': 0})
-    return {'mods': mods, 'actions': actions, 'T': T, 'start': 1000}
+    # a session of commands to ONE module (fast polling on/off and poll interval changes in any order), so that every
+    # short history of what a module can be told occurs often — not only isolated commands to random modules
+    if rng.random() < 0.35:
+        cand = [k for k, m in enumerate(mods) if m['base'] in ('readable', 'io') and m.get('enabled', True)]
+        if cand:
+            m = rng.choice(cand)
+            t = actions[-1]['at'] if actions else 0
+            for _ in range(rng.choice([2, 3, 3, 4])):
+                t += rng.choice([700, 1500, 3001, 7777])
+                if t >= T - 4096:
+                    break
+                actions.append(gen_command(rng, mods, m, t))
+    # actions of another thread at the entry of event operations of the poll thread (see `intruder`)
+    wactions = []
+    if rng.random() < 0.45:
+        used = set()
+        for _ in range(rng.choice([1, 2, 3])):
+            k = rng.randrange(1, 80)
+            if k in used:
+                continue
+            used.add(k)
+            m = rng.randrange(len(mods))
+            r = rng.random()
+            if r < 0.75 and mods[m]['base'] in ('readable', 'io'):
+                a = gen_command(rng, mods, m, 0)
+            elif r < 0.9 or not with_io:
+                a = {'op': 'trig', 'm': m, 'imm': rng.random() < 0.6}
+            else:
+                a = {'op': 'reconnect', 'm': 0}
+            a.pop('at', None)
+            a['sync'] = k
+            wactions.append(a)
+    return {'mods': mods, 'actions': actions, 'wactions': wactions, 'T': T, 'start': 1000}
+
+
+def gen_command(rng, mods, m, t):
+    """one thing a module can be told about its poll interval"""
+    r = rng.random()
+    if r < 0.4:
+        v = rng.choice(POLL_IV + ([0] if mods[m]['base'] == 'io' else []))
+        return {'at': t, 'op': 'pi', 'm': m, 'v': v}
+    if r < 0.75:
+        return {'at': t, 'op': 'fast', 'm': m, 'flag': True, 'v': rng.choice([0, 64, 64, 256, 256, 1024])}
+    return {'at': t, 'op': 'fast', 'm': m, 'flag': False, 'v': rng.choice([64, 256])}
+
+
+def command_catalogue():
+    """every sequence of three commands (fast polling on `+`, off `-`, poll interval change `p`) given to a module
+    that starts with a long poll interval, three modules (= three sequences) per scenario; the values get shorter
+    with each command, so a command that is not (or no longer) honoured shows as a main poll that comes too late"""
+    import itertools
+    seqs = list(itertools.product('+-p', repeat=3))
+    cases = []
+    for k in range(0, len(seqs), 3):
+        mods, actions = [], []
+        for j, seq in enumerate(seqs[k:k + 3]):
+            mods.append({'base': 'readable', 'has_io': False, 'pollinterval': 10240, 'slow': 15360,
+                         'params': [{'name': 'a', 'kind': 'read', 'script': [[8, 'ok']]}],
+                         'doPoll': [[8, 'ok']], 'doPollReads': [], 'init': [[0, 'ok']], 'initReads': [], 'enabled': True})
+            for n, c in enumerate(seq):
+                at = 2048 + n * 5120 + j * 300
+                if c == 'p':
+                    actions.append({'at': at, 'op': 'pi', 'm': j, 'v': [2560, 1024, 512][n]})
+                else:
+                    actions.append({'at': at, 'op': 'fast', 'm': j, 'flag': c == '+', 'v': [512, 256, 128][n]})
+        mods[0]['base'] = 'io'
+        mods[0]['params'] = []
+        for mm in mods[1:]:
+            mm['has_io'] = True
+        actions.sort(key=lambda a: a['at'])
+        cases.append({'mods': mods, 'actions': actions, 'wactions': [], 'T': 50 * TICKS, 'start': 1000,
+                      'note': 'command sequences ' + ' '.join(''.join(q) for q in seqs[k:k + 3])})
+    return cases
+
+
+def window_catalogue():
+    """one module with a long poll interval; another thread shortens it at the entry of the n-th event operation of
+    the poll thread, n = 1..6 (before a wait / between a wait and the clear, early and late in the run)"""
+    cases = []
+    for k in (1, 2, 3, 4, 5, 6):
+        for a in ({'op': 'fast', 'm': 0, 'flag': True, 'v': 64}, {'op': 'pi', 'm': 0, 'v': 256}):
+            cases.append({'mods': [{'base': 'readable', 'has_io': False, 'pollinterval': 10240, 'slow': 15360,
+                                    'params': [{'name': 'a', 'kind': 'read', 'script': [[8, 'ok']]}],
+                                    'doPoll': [[8, 'ok']], 'doPollReads': [], 'init': [[0, 'ok']], 'initReads': [], 'enabled': True}],
+                          'actions': [], 'wactions': [dict(a, sync=k)], 'T': 40 * TICKS, 'start': 1000})
+    return cases
 
 
 def zero_interval(case):
     """does any module ever run with interval 0 (the loop then never waits: one turn per few ticks)"""
     if any(m['base'] == 'io' and m['pollinterval'] == 0 and m.get('enabled', True) for m in case['mods']):
         return True
-    return any(a['op'] in ('fast', 'pi') and a['v'] == 0 and a.get('flag', True) for a in case.get('actions', []))
+    return any(a['op'] in ('fast', 'pi') and a['v'] == 0 and a.get('flag', True)
+               for a in case.get('actions', []) + case.get('wactions', []))
 
 
 def cheap_turn(case):
@@ -870,10 +1034,17 @@ def shrink_case(ctx, case, sig):
             best = dict(best, actions=acts)
         else:
             best = dict(best, actions=[])
+    if best.get('wactions'):
+        if fails_with(dict(best, wactions=[])):
+            best = dict(best, wactions=[])
+        elif len(best['wactions']) > 1:
+            wa = ddmin(best['wactions'], lambda a: fails_with(dict(best, wactions=a)), max_tests=8)
+            best = dict(best, wactions=wa)
     # drop trailing modules that are not needed (an io module at index 0 has to stay when others refer to it)
     while len(best['mods']) > 1:
         cand = dict(best, mods=best['mods'][:-1],
-                    actions=[a for a in best['actions'] if a['m'] < len(best['mods']) - 1])
+                    actions=[a for a in best['actions'] if a['m'] < len(best['mods']) - 1],
+                    wactions=[a for a in best.get('wactions', []) if a['m'] < len(best['mods']) - 1])
         if any(m.get('enabled', True) for m in cand['mods']) and fails_with(cand):
             best = cand
         else:
@@ -900,6 +1071,8 @@ def run(ctx):
         for fn in sorted(os.listdir(cdir)):
             cases.append(json.load(open(os.path.join(cdir, fn)))['case'])
     cases += [dict(c) for c in BOUNDARY]
+    cases += command_catalogue()
+    cases += window_catalogue()
     n = ctx.budget(140, 600)
     for _ in range(n):
         c = gen_case(rng, big, T)
@@ -930,6 +1103,16 @@ def run(ctx):
         res.count('io' if case['mods'][0]['base'] == 'io' else 'no-io')
         res.count('enabled=%d' % nen)
         res.count('actions=%s' % min(len(case.get('actions', [])), 3))
+        fired = sum(len(g) for g in obs['gaps'])
+        res.count('window-actions=%s' % ('none' if not case.get('wactions') else 'given'))
+        if fired:
+            res.count('acted-between-wait-and-clear')
+        if any(b['d'] == 0 for w in obs['waits'] for b in w):
+            res.count('acted-at-wait-entry')
+        for m in obs['judge_mods']:
+            kinds = ''.join('p' if c[0] == 'pi' else ('+' if c[2] else '-') for c in m['cmds'])
+            if kinds:
+                res.count('commands=%s' % (kinds if len(kinds) <= 3 else kinds[:3] + '…'))
         res.count('interval0' if zero_interval(case) else 'interval>0')
         res.count('failing-calls=%s' % ('0' if not fails else '1-9' if fails < 10 else '10+'))
         res.count('startup-abort' if model.get('aborted') else 'startup-complete')
@@ -944,7 +1127,9 @@ def run(ctx):
         # ---- correspondence
         if ctx.model_ok:
             mevs = model['evs']
-            if mevs != evs or (obs['calls'] and model['loopStart'] != obs['loopStart'] and obs['advs']):
+            if obs.get('drift'):
+                res.disagreements.append({'case': case, 'model': 'no slot for what the implementation did', 'impl': obs['drift']})
+            elif mevs != evs or (obs['calls'] and model['loopStart'] != obs['loopStart'] and obs['advs']):
                 k = next((i for i, (x, y) in enumerate(zip(mevs, evs)) if x != y), min(len(mevs), len(evs)))
                 res.disagreements.append({'case': case, 'model': {'first_diff': k, 'evs': mevs[max(0, k - 2):k + 3], 'n': len(mevs),
                                                                    'loopStart': model['loopStart']},
